@@ -318,6 +318,15 @@ func (da *DistributedAllocator) Release(ctx context.Context, subscriberID string
 	da.mu.Lock()
 	defer da.mu.Unlock()
 
+	// Remove the stored record first: if the store refuses, memory must keep
+	// agreeing with it (the allocation stays in place and the caller can retry).
+	held := da.hasAllocationLocked(subscriberID)
+	if held {
+		if err := da.deleteAllocation(ctx, subscriberID); err != nil {
+			return fmt.Errorf("delete allocation: %w", err)
+		}
+	}
+
 	// Release from appropriate allocator
 	if da.mode == PoolModeLease {
 		if err := da.epochAllocator.Release(ctx, subscriberID); err != nil {
@@ -329,6 +338,9 @@ func (da *DistributedAllocator) Release(ctx context.Context, subscriberID string
 		}
 	}
 
+	if held {
+		return nil
+	}
 	return da.deleteAllocation(ctx, subscriberID)
 }
 
